@@ -153,6 +153,47 @@ def _check_wide(i):
     return True, "ok"
 
 
+def _check_very_wide(n):
+    """registers of 33 .. 100 qubits (beyond machine-word widths): expectation values, correlations, parity tallies and the frequency-based
+    expectation are computed from shots that agree on the low qubits and differ on the high ones (and the other way round); marked
+    qubits may be given as any iterable, also a one-shot one"""
+    import numpy as np
+    from orquestra.quantum.measurements import Measurements, get_parities_from_measurements
+    from orquestra.quantum.measurements.measurements import get_expectation_value_from_frequencies
+    from orquestra.quantum.operators import PauliSum, PauliTerm
+    one_hot = lambda q: tuple(1 if i == q else 0 for i in range(n))
+    shots = [one_hot(n - 1)] * 3 + [one_hot(n - 2)] * 2 + [one_hot(0)] + [tuple([1] * n)] * 2 + [one_hot(n // 2)] + [tuple([0] * n)] * 4
+    m = Measurements(list(shots))
+    supports = [{n - 1}, {0}, {n - 2, n - 1}, {0, n - 1}, {n // 2}, {0, 1, n - 1}, {32 % n, n - 1}, set()]
+    terms = [PauliTerm({q: "Z" for q in S} if S else "I0", 0.5 + k) for k, S in enumerate(supports)]
+    op = PauliSum(terms)
+    N = len(shots)
+    ev = m.get_expectation_values(op)
+    vals = [t.coefficient * sum(_eps(s, t.qubits) for s in shots) / N for t in terms]
+    if not np.allclose(ev.values, vals, atol=1e-12):
+        return False, f"{n} qubits: values {list(np.round(ev.values, 3))} expected {list(np.round(vals, 3))}"
+    corr = [[a.coefficient * b.coefficient * sum(_eps(s, a.qubits) * _eps(s, b.qubits) for s in shots) / N for b in terms] for a in terms]
+    if not np.allclose(ev.correlations[0], corr, atol=1e-12):
+        return False, f"{n} qubits: correlations differ"
+    par = get_parities_from_measurements(list(shots), op)
+    for i, t in enumerate(terms):
+        even = sum(1 for s in shots if _eps(s, t.qubits) == 1)
+        if list(par.values[i]) != [even, N - even]:
+            return False, f"{n} qubits: parity tallies of the term on {sorted(t.qubits)} are {list(par.values[i])}, expected {[even, N - even]}"
+    counts = dict(m.get_counts())
+    if sum(counts.values()) != N or len(counts) != len(set(shots)):
+        return False, f"{n} qubits: counts {len(counts)} distinct outcomes / {sum(counts.values())} shots"
+    for S in supports:
+        want = sum(_eps(s, S) for s in shots) / N
+        kinds = {"tuple": tuple(S), "list": sorted(S), "set": set(S), "frozenset": frozenset(S), "generator": (q for q in sorted(S)), "iterator": iter(sorted(S)),
+                 "map": map(int, sorted(S)), "dict keys": {q: None for q in S}.keys(), "range": range(min(S), max(S) + 1) if S and max(S) - min(S) + 1 == len(S) else tuple(S)}
+        for kind, marked in kinds.items():
+            got = get_expectation_value_from_frequencies(marked, counts)
+            if abs(got - want) > 1e-12:
+                return False, f"{n} qubits: get_expectation_value_from_frequencies with the marked qubits {sorted(S)} given as a {kind} returns {got}, the sample mean is {want}"
+    return True, "ok"
+
+
 def _expectation_values_ob(fb):
     """values / correlations / covariances of Measurements.get_expectation_values for ALL operators (any number of terms): Engine V over abstract
     numpy arrays; `get_expectation_value_from_frequencies` is an uninterpreted function EF(qubit set, counts) (its own contract is the bounded part)"""
@@ -327,6 +368,10 @@ def build(tier, seed):
     obs.append(vprop.enum_ob("C10.stats.enum", F_OPS[:4] + [PA + ":get_parities_from_measurements"], _cases(tier), _check_stats,
                              "bounded-exhaustive: every multiset of <= 3 (thorough 4) shots on 1..3 qubits x 4 operator shapes (overlapping, repeated, constant terms): values, correlations, "
                              "covariances (with / without Bessel), counts, distribution, counts<->bitstrings, parity tallies equal their definitions", timeout=900))
+    obs.append(vprop.enum_ob("C10.very_wide.enum", F_OPS[:3] + ["orquestra.quantum.measurements.parities:get_parities_from_measurements",
+                                                    "orquestra.quantum.measurements.measurements:get_expectation_value_from_frequencies"], lambda: [3, 31, 32, 33, 40, 63, 64, 65, 72, 100], _check_very_wide,
+                             "bounded: registers of 3 .. 100 qubits with shots that differ only on the highest / lowest qubits: values, correlations, parity tallies, counts; the frequency-based "
+                             "expectation with the marked qubits given as nine kinds of iterable (incl. one-shot ones)", exhaustive=False))
     obs.append(vprop.enum_ob("C10.wide.enum", F_OPS[:3], lambda: range(3), _check_wide,
                              "bounded: 14-qubit registers with multi-digit qubit indices and look-alike supports; repeated queries after in-place edits follow the measurement set", exhaustive=False))
     from vfw import lean
